@@ -122,7 +122,17 @@ PROGRAMS: List[Tuple[str, str, bool]] = [
     ("generator-thrown-into", "THROW(M.gen_catch(5))", False),
     ("generator-closed-early", "(CLOSE(M.gen_finally_(3)), M.f(1))", False),
     ("coroutine-and-generator", "(DRIVE(M.coro(1)), list(M.gen_rebind('x')), DRIVE(M.coro([2])))", False),
+    # a generator suspended at a bare yield and dropped: judged only for the answer vectors that did NOT sample it (when it
+    # is sampled, the unchanged tree loses it and keeps its entry - open finding gen-unwind-at-bare-yield of C02)
+    ("unsampled-generator-abandoned", "(DROP(M.gen_inner(7)), M.f(1))", False),
 ]
+JUDGED_ONLY_WHEN_FIRST_CALL_UNSAMPLED = {"unsampled-generator-abandoned"}
+
+
+def drop_suspended(g: Any) -> Any:
+    v = next(g)
+    del g
+    return v
 # thorough tier only: longer programs (complete enumeration of every answer vector up to 11 draws)
 PROGRAMS_THOROUGH: List[Tuple[str, str, bool]] = [
     ("nine-calls", "[M.f(i) for i in (0, 'a', None)] + [M.g(1), M.top(2)]", True),
@@ -263,7 +273,7 @@ def run_once(M, files, expr: str, rate: Optional[int], fake: FakeRandom, prefix:
             with tracing.trace_calls(col, k, lambda code: code.co_filename in files, rate):
                 tracer = sys.getprofile()
                 try:
-                    eval(expr, {"M": M, "DRIVE": drive_all, "INTERLEAVE": interleave, "THROW": throw_into, "CLOSE": close_early, "ADRIVE": drive_async_gen})
+                    eval(expr, {"M": M, "DRIVE": drive_all, "INTERLEAVE": interleave, "THROW": throw_into, "CLOSE": close_early, "ADRIVE": drive_async_gen, "DROP": drop_suspended})
                 except Exception:  # noqa: BLE001
                     pass
                 residue = len(tracer.traces)
@@ -335,6 +345,9 @@ THOROUGH = [False]
 
 def explore_program(res: Result, M, files, pi: int, rate, fake: FakeRandom) -> None:
     name, expr, plain = PROGRAMS[pi]
+    partial = name in JUDGED_ONLY_WHEN_FIRST_CALL_UNSAMPLED
+    if partial and (not rate or rate < 2):
+        return
     # calibration: how many draws does the all-sample run make?
     col, rec, points, answers, residue = run_once(M, files, expr, rate, fake, [], False)
     ndraw = len(points)
@@ -364,6 +377,8 @@ def explore_program(res: Result, M, files, pi: int, rate, fake: FakeRandom) -> N
         key = tuple(answers)
         first = key not in seen_vectors
         seen_vectors.add(key)
+        if first and partial and (not answers or answers[0] == 0):
+            first = False   # the first call was sampled: the open finding's territory, not judged here
         if first:
             res.states += 1
             res.evaluations += 1
@@ -393,7 +408,7 @@ def explore_program(res: Result, M, files, pi: int, rate, fake: FakeRandom) -> N
     if not full:
         res.caps.append(f"{name}@{rate}: {ndraw} draws > 6: vectors limited to <= 3 deviations from all-sample and never-sample") if False else None
     # exact expectation of the traced fraction over {0, non-zero} answers
-    if rate and rate >= 2 and ndraw <= (14 if THOROUGH[0] else 10):
+    if rate and rate >= 2 and ndraw <= (14 if THOROUGH[0] else 10) and not partial:
         exp = 0.0
         total_p = 0.0
 
